@@ -18,6 +18,9 @@ VERIF = os.path.dirname(os.path.dirname(os.path.abspath(__file__)))
 EXIT_OK, EXIT_VIOLATION, EXIT_HARNESS = 0, 1, 2
 
 
+INFEASIBLE = 'INFEASIBLE'
+
+
 class Unit:
     """result collector handed to a property's run_unit"""
 
@@ -80,7 +83,7 @@ class Unit:
         self.add(key, 'error', detail + ' [solver model does not reproduce on the real code: %s]' % text, witness=wit, info=info)
         return 'error'
 
-    def reach(self, key, assumptions, timeout=20.0, hints=None):
+    def reach(self, key, assumptions, timeout=20.0, hints=None, soft=False):
         """reachability twin: the assumptions themselves must be satisfiable.  returns model or None.
         `hints` (equalities fixing independent inputs) only speed up the search for a witness."""
         t0 = time.time()
@@ -92,6 +95,11 @@ class Unit:
         if os.environ.get('VERIF_DEBUG'):
             print('   [%s] reach %s %s %.2fs %s' % (self.name, key, st, time.time() - t0, info.get('solver')), file=sys.stderr, flush=True)
         if st == 'unsat':
+            if soft:
+                # a path kept only because its feasibility query was `unknown` turned out infeasible: pruned, not an error
+                self.notes.append('path %s pruned: path condition unsatisfiable' % key)
+                self.pruned = getattr(self, 'pruned', 0) + 1
+                return INFEASIBLE
             self.add(key + '/reach', 'error', 'vacuous: assumptions are unsatisfiable')
             return None
         if st == 'unknown':
